@@ -3,6 +3,7 @@ package checks
 import (
 	"bytes"
 	"context"
+	"crypto/sha256"
 	"encoding/binary"
 	"fmt"
 	"sync"
@@ -210,6 +211,20 @@ func fakePeerID(i int) peer.ID {
 	return peer.ID(fmt.Sprintf("verif-fake-peer-%02d", i))
 }
 
+// fakePeerIDShaped: ids of the shapes real key types give - 0: the short harness id, 1: an identity multihash of
+// an Ed25519 public key ("12D3KooW...", 52 characters as text), 2: a SHA-256 multihash as RSA keys get ("Qm...",
+// 46 characters). The two ends of a channel may well be of different shapes and lengths.
+func fakePeerIDShaped(i, shape int) peer.ID {
+	sum := sha256.Sum256([]byte(fmt.Sprintf("verif-fake-peer-%02d", i)))
+	switch shape {
+	case 1:
+		return peer.ID(append([]byte{0x00, 0x24, 0x08, 0x01, 0x12, 0x20}, sum[:]...))
+	case 2:
+		return peer.ID(append([]byte{0x12, 0x20}, sum[:]...))
+	}
+	return fakePeerID(i)
+}
+
 // ---------------------------------------------------------------------------
 // (a) pubsubcoreapi: membership diff and message filtering
 
@@ -401,8 +416,9 @@ type SendC20 struct {
 }
 
 type CaseC20b struct {
-	IDs   [2]int    `json:"ids"`
-	Sends []SendC20 `json:"sends"`
+	IDs    [2]int    `json:"ids"`
+	Shapes [2]int    `json:"shapes,omitempty"` // see fakePeerIDShaped
+	Sends  []SendC20 `json:"sends"`
 	// Overlap: 2 or 3 Connect calls per end for the same peer start at the same time (two or three stores of
 	// one instance meeting the same peer), 0 = one call per end
 	Overlap int `json:"overlap,omitempty"`
@@ -415,6 +431,8 @@ func genC20b(rt *rapid.T) CaseC20b {
 	if rapid.Bool().Draw(rt, "swap") {
 		c.IDs[0], c.IDs[1] = c.IDs[1], c.IDs[0]
 	}
+	c.Shapes[0] = rapid.IntRange(0, 2).Draw(rt, "shape0")
+	c.Shapes[1] = rapid.IntRange(0, 2).Draw(rt, "shape1")
 	n := rapid.IntRange(1, 10).Draw(rt, "nsends")
 	for i := 0; i < n; i++ {
 		c.Sends = append(c.Sends, SendC20{From: rapid.IntRange(0, 1).Draw(rt, "from"), Size: rapid.SampledFrom([]int{0, 1, 100, 16384, 65536}).Draw(rt, "size")})
@@ -428,7 +446,10 @@ func execC20b(c CaseC20b) *Outcome {
 	ctx, cancel := context.WithCancel(context.Background())
 	defer cancel()
 	h := newHub()
-	ids := [2]peer.ID{fakePeerID(c.IDs[0]), fakePeerID(c.IDs[1])}
+	ids := [2]peer.ID{fakePeerIDShaped(c.IDs[0], c.Shapes[0]), fakePeerIDShaped(c.IDs[1], c.Shapes[1])}
+	if len(ids[0].String()) != len(ids[1].String()) {
+		o.Labels = append(o.Labels, "ids-of-different-length")
+	}
 	ems := [2]*collectEmitter{{}, {}}
 	var chs [2]iface.DirectChannel
 	for i := 0; i < 2; i++ {
